@@ -146,9 +146,8 @@ Theorem tie_trigger_enum :
   Trigger_members = [(trig_of E.Level, "level"%string); (trig_of E.Rise, "rise"%string); (trig_of E.Fall, "fall"%string)] /\
   (forall a b, Trigger_eqb a b = true <-> a = b).
 Proof.
-  repeat split; try (intros []; reflexivity).
-  - destruct a, b; cbn; congruence.
-  - intros ->. destruct b; reflexivity.
+  split; [intros []; reflexivity|]. split; [intros []; reflexivity|]. split; [reflexivity|].
+  intros a b. split; [destruct a, b; cbn; congruence | intros ->; destruct b; reflexivity].
 Qed.
 Print Assumptions tie_trigger_enum.
 
@@ -169,10 +168,12 @@ Proof.
 Qed.
 Print Assumptions tie_signature_init.
 
-Theorem tie_signature_default : mode_arg gen_signature_init_default_trigger = Some E.Level
-  /\ mode_arg gen_monitor_init_default_trigger = Some E.Level /\ mode_arg gen_evmon_init_default_trigger = Some E.Level.
+(* parameter defaults: trigger="level" everywhere, alignment=0 *)
+Theorem tie_defaults : mode_arg gen_signature_init_default_trigger = Some E.Level
+  /\ mode_arg gen_monitor_init_default_trigger = Some E.Level /\ mode_arg gen_evmon_init_default_trigger = Some E.Level
+  /\ gen_evmon_init_default_alignment = VInt 0.
 Proof. repeat split; reflexivity. Qed.
-Print Assumptions tie_signature_default.
+Print Assumptions tie_defaults.
 
 (* the setter refuses anything but an EventMap (TypeError) and FREEZES the map it stores *)
 Theorem tie_source_set_event_map : forall p,
@@ -402,6 +403,12 @@ Definition evmon_trace (n : Z) (dw al : pyint) : mmtrace :=
                   {| ac_res := XRoot "_pending"; ac_name := NmTuple ["pending"%string]; ac_size := VInt rs;
                      ac_addr := VNone; ac_alignment := VNone |} ] |}.
 
+(* equality of constructor terms whose integer leaves may be written differently (a + 1 / 1 + a) *)
+Ltac struct_eq :=
+  first [ reflexivity
+        | lazymatch goal with |- @eq Z _ _ => lia end
+        | progress f_equal; struct_eq ].
+
 Definition evmon_members : list (string * member signature) :=
   [("src"%string, MExt DOut (XAttr (XAttr (XRoot "_monitor") "src") "signature"));
    ("bus"%string, MExt DIn (XMeth (XAttr (XAttr (XRoot "_mux") "bus") "signature") "flip"))].
@@ -424,15 +431,19 @@ Theorem tie_evmon_init : forall p v dw al,
        end.
 Proof.
   intros p v dw al. unfold gen_evmon_init.
-  assert (Hdw : (negb (pi_is_int dw) || (pi_zof dw <=? 0)) = negb (MM.posint dw)).
-  { destruct dw as [z| |]; cbn [pi_is_int pi_zof MM.posint negb orb]; try reflexivity. lia. }
-  assert (Hal : (negb (pi_is_int al) || (pi_zof al <? 0)) = negb (MM.nonneg al)).
-  { destruct al as [z| |]; cbn [pi_is_int pi_zof MM.nonneg negb orb]; try reflexivity. lia. }
-  rewrite Hdw, Hal.
-  destruct (negb (MM.posint dw)); [reflexivity|]. destruct (negb (MM.nonneg al)); [reflexivity|].
+  (* the two argument checks, whatever way the comparisons are written *)
+  destruct dw as [z| |]; cbn [pi_is_int pi_zof MM.posint negb orb]; try reflexivity.
+  match goal with |- (if ?c then _ else _) = _ => destruct c eqn:Hc end;
+    destruct (0 <? z) eqn:Hz; cbn [negb]; try (exfalso; lia); try reflexivity.
+  destruct al as [a| |]; cbn [pi_is_int pi_zof MM.nonneg negb orb]; try reflexivity.
+  match goal with |- (if ?c then _ else _) = _ => destruct c eqn:Hc' end;
+    destruct (0 <=? a) eqn:Ha; cbn [negb]; try (exfalso; lia); try reflexivity.
   destruct (gen_monitor_init p v) as [[mem slot]|e]; [|reflexivity].
   cbv beta iota zeta delta [bind gen_emap_size gen_maskreg_init snd].
-  destruct (emap_of slot) as [d f]. reflexivity.
+  destruct (emap_of slot) as [d f]. cbv beta iota zeta.
+  unfold evmon_trace, maskreg, evmon_members, evmon_stores, mm_add, C.reg_size.
+  cbn [fst mt_addr_width mt_data_width mt_alignment mt_adds app pi_zof].
+  struct_eq.
 Qed.
 Print Assumptions tie_evmon_init.
 
